@@ -17,6 +17,8 @@ Local Open Scope list_scope.
 From OV Require Import Base.Bytes Base.Utf8 Base.ErrClass Gen.Safety Model.Latch Proofs.Latch Model.Safety
   Proofs.SafetyInvoke Proofs.SafetyValidate Proofs.SafetyJson Proofs.SafetyCsv Proofs.SafetyRlf
   Proofs.SafetyFixed Proofs.SafetyReads Proofs.SafetyMisc.
+(* C05's model: names qualified (Model.Hier and Model.Safety both have an [outcome]) *)
+From OV Require Model.Hier Model.HierSpec Proofs.HierInst Proofs.HierMain Proofs.HierTerm Proofs.SafetyHier.
 
 (* ---- custom_func invocation (transform/invokeCustomFunc.go) ---------------------------------- *)
 (* For every signature whose first parameter accepts *transformctx.Ctx (registration is the
@@ -254,3 +256,38 @@ Example read_terminates_nonvacuous :
   map out_terminal (snd (run sing sing_step sing_cont (t_init, s0) (repeat OpRead 5)))
     = [false; false; true; true; true].
 Proof. vm_compute. reflexivity. Qed.
+
+(* ---- closed instances of the Read bound: the hierarchy reader (csv2, fixedlength2, EDI) --------- *)
+(* C05 proves the stack machine of flatfile/hierarchyReader.go (and of edi/reader.go) equal to the
+   recursive specification, for every validated declaration list and every unit sequence.  On the
+   specification every delivered target is paid for by >= 1 consumed unit (spec_deliveries_le_units),
+   so over the Read sequence of a run -- one Read per delivery, then the terminal one -- the
+   progress hypothesis of reads_bound_generic is discharged and the terminal result comes at Read
+   number n <= (number of lines / segments) + 1, with no hypothesis left. *)
+Theorem hier_reads_bound : forall ds us,
+  forallb HierInst.wfb ds = true -> Hier.count_tgts ds <= 1 ->
+  exists n, reads_to_terminal _ SafetyHier.run_reader (List.length (fst (Hier.run_kind Hier.KHier ds us)) + 1) (Hier.run_kind Hier.KHier ds us) = Some n
+            /\ 1 <= n <= List.length us + 1.
+Proof. exact SafetyHier.hier_reads_bound_lemma. Qed.
+
+(* EDI, inside C05's guard no_root_repeat (its known finding F14). *)
+Theorem edi_reads_bound : forall ds us,
+  forallb HierInst.wfb ds = true -> Hier.count_tgts ds <= 1 -> HierMain.no_root_repeat Hier.edi_leaf ds us ->
+  exists n, reads_to_terminal _ SafetyHier.run_reader (List.length (fst (Hier.run_kind Hier.KEdi ds us)) + 1) (Hier.run_kind Hier.KEdi ds us) = Some n
+            /\ 1 <= n <= List.length us + 1.
+Proof. exact SafetyHier.edi_reads_bound_lemma. Qed.
+
+(* Non-vacuity, and the bound is tight: a one-line target record over two lines is delivered
+   twice, the third Read is the terminal one (3 = units + 1); a header record, a group with a
+   two-line target and a trailer over five lines: two deliveries, terminal at Read 3 <= 6. *)
+Example hier_reads_nonvacuous :
+  let ds1 := [Hier.D 1 false true 0 None (Hier.LRows 1) []] in
+  let us1 := [Hier.U 7 1; Hier.U 7 2] in
+  let ds2 := [Hier.D 1 false false 0 (Some 1) (Hier.LName 1) [];
+              Hier.D 2 true false 0 None (Hier.LRows 0) [Hier.D 3 false true 1 None (Hier.LRows 2) []]] in
+  let us2 := [Hier.U 1 1; Hier.U 9 2; Hier.U 9 3; Hier.U 9 4; Hier.U 9 5] in
+  forallb HierInst.wfb ds1 = true /\ Hier.count_tgts ds1 = 1
+  /\ reads_to_terminal _ SafetyHier.run_reader 3 (Hier.run_kind Hier.KHier ds1 us1) = Some 3
+  /\ forallb HierInst.wfb ds2 = true /\ Hier.count_tgts ds2 = 1
+  /\ reads_to_terminal _ SafetyHier.run_reader 6 (Hier.run_kind Hier.KHier ds2 us2) = Some 3.
+Proof. vm_compute. repeat split; reflexivity. Qed.
